@@ -74,8 +74,8 @@ def run_shard(shard):
             r = _pair(x, pn, pi, order, win, backend, scale)
             out["evals"] += r["evals"]
             out["nontrivial"] += r["nontrivial"]
-            for k in ("bins_coh1_checked", "bins_complex_XY"):
-                out["extra"][k] += r["extra"][k]
+            for k in r["extra"]:
+                out["extra"][k] = out["extra"].get(k, 0) + r["extra"][k]
             for f_ in r["failures"]:
                 if f_["key"] not in seen:
                     seen.add(f_["key"])
@@ -103,8 +103,8 @@ def _big(shard):
             r = _pair(x, pn, 0, order, win, shard["backend"])
             out["evals"] += r["evals"]
             out["nontrivial"] += r["nontrivial"]
-            for k in ("bins_coh1_checked", "bins_complex_XY"):
-                out["extra"][k] += r["extra"][k]
+            for k in r["extra"]:
+                out["extra"][k] = out["extra"].get(k, 0) + r["extra"][k]
             for f_ in r["failures"]:
                 f_["case"] = dict(shard)
                 f_["key"] = "big/" + f_["key"]
@@ -191,4 +191,22 @@ def _pair(x, pn, pi, order, win, backend, scale=1.0):
             tS = (1e-9 + 8 * (tol[0] / XX + tol[1] / YY + (2 * tol[2] / abs(XY) if abs(XY) > 0 else 0.0))) * abs(Gyy[j])
             if np.isfinite(tS) and not (abs(GyySx[j] - want) <= tS):
                 add("GyySx", f"bin {j}: GyySx={GyySx[j]!r} != Gyy*(1-coh)={want!r} (XY={XY!r}, tol {tS:.2e})")
+        elif np.isfinite(coh[j]) and np.isfinite(Gyy[j]) and np.isfinite(GyySx[j]):
+            # weak or vanishing channels (zero / constant-after-detrend): the identity is between the result's own attributes, so it
+            # is demanded for whatever value the coherence takes there, to rounding of Gyy
+            out["extra"]["bins_GyySx_degenerate"] = out["extra"].get("bins_GyySx_degenerate", 0) + 1
+            want = Gyy[j] * (1 - coh[j])
+            if not (abs(GyySx[j] - want) <= 1e-9 * abs(Gyy[j]) + 1e-300):
+                add("GyySx-degenerate", f"bin {j}: GyySx={GyySx[j]!r} != Gyy*(1-coh)={want!r} with coh={coh[j]!r} (XX={XX!r}, YY={YY!r}, XY={XY!r})")
+    # the conditioned spectra of the swapped analysis (there the *first* channel is the zero / constant / dependent one)
+    sG, sC, sR, sS, sc = rs.Gyy, rs.GyyCx, rs.GyyRx, rs.GyySx, rs.coh
+    for j in range(nf):
+        if not (np.isfinite(sc[j]) and np.isfinite(sG[j]) and np.isfinite(sS[j]) and np.isfinite(sG[j] * sc[j])):
+            continue
+        out["extra"]["bins_swapped_conditioned"] = out["extra"].get("bins_swapped_conditioned", 0) + 1
+        if not (abs(sC[j] + sR[j] - sG[j]) <= 1e-12 * abs(sG[j]) + 1e-300):
+            add("swapped/Cx+Rx", f"bin {j} of the swapped pair: GyyCx+GyyRx={sC[j] + sR[j]!r} != Gyy={sG[j]!r}")
+        want = sG[j] * (1 - sc[j])
+        if not (abs(sS[j] - want) <= 1e-9 * abs(sG[j]) + 1e-300):
+            add("swapped/GyySx", f"bin {j} of the swapped pair (channels y,x): GyySx={sS[j]!r} != Gyy*(1-coh)={want!r} with coh={sc[j]!r}, K={int(pf['K'][j])}")
     return out
